@@ -132,3 +132,32 @@ fn c08_years_since() {
     kani::cover!(ma == mb && da == db && sa < sb && ya > yb);
     kani::cover!(a.years_since(b).is_none());
 }
+
+// @ob tier=thorough timeout=2400 mem=12
+// @desc NaiveDate::from_weekday_of_month_opt(year, month, weekday, n): Some exactly when the month exists, n >= 1 and the n-th such weekday falls inside the month; then the date lies in that year and month, has that weekday (independent reference calendar), and is the n-th occurrence (day in 7(n-1)+1 ..= 7n); no overflow for n up to 255
+// @bounds all i32 years x all u32 months x 7 weekdays x all u8 n
+// @funcs NaiveDate::from_weekday_of_month_opt, from_ymd_opt, weekday
+#[kani::proof]
+#[kani::unwind(2)]
+fn c08_weekday_of_month() {
+    let y: i32 = kani::any();
+    let m: u32 = kani::any();
+    let wd = any_weekday();
+    let n: u8 = kani::any();
+    let r = NaiveDate::from_weekday_of_month_opt(y, m, wd, n);
+    let month_ok = valid_ymd(y, m, 1);
+    if !month_ok || n == 0 {
+        assert!(r.is_none());
+        return;
+    }
+    let first = weekday_index(y, m, 1); // Monday = 0
+    let day = (n as u32 - 1) * 7 + (7 + wd.num_days_from_monday() - first) % 7 + 1;
+    assert!(r.is_some() == (day <= days_in_month(y, m)));
+    if let Some(d) = r {
+        assert!(d.year() == y && d.month() == m && d.day() == day);
+        assert!(weekday_index(y, m, d.day()) == wd.num_days_from_monday());
+        assert!(d.day() >= 7 * (n as u32 - 1) + 1 && d.day() <= 7 * n as u32);
+    }
+    kani::cover!(r.is_some() && n == 5);
+    kani::cover!(r.is_none() && n == 5 && month_ok);
+}
